@@ -28,6 +28,7 @@ REQUIRED = {
     "single_updates_checked": 500, "other_entries_bitwise_checks": 500,
     "mc_entries_checked": 50, "model_rows_checked": 50,
     "in_loop_updates_checked": 100, "planning_updates_checked": 10,
+    "planning_calls_checked": 20, "planning_calls_with_greedy_switch": 3,
     "in_loop_update_inputs_checked": 100, "in_loop_updates_on_truncated_steps": 5,
 }
 TIMEOUT = {"quick": 1200, "thorough": 7000}
@@ -51,6 +52,7 @@ def gen_cases(tier, seed):
     for i in range(6 * k):
         cases.append(dict(kind="mc", seed=int(rng.integers(1 << 30)), cost=2))
         cases.append(dict(kind="model", seed=int(rng.integers(1 << 30)), cost=3))
+        cases.append(dict(kind="planning", seed=int(rng.integers(1 << 30)), cost=2))
     for algo in ALGOS + ["monte_carlo"]:
         for i in range(2 * k):
             cases.append(dict(kind="loop", algo=algo,
@@ -315,6 +317,66 @@ def run_model(case):
         if not check_model(res, model, hist, nS, nA, f"after transition {i}"):
             return res
     res.nontrivial = stochastic
+    return res
+
+
+def run_planning(case):
+    """Dyna-Q's planning call as a black box: with a single visited pair in the
+    replay store every replay is of that pair, whatever the sampling protocol;
+    the result must equal that many sequential greedy-successor updates (the
+    greedy action at the successor may change from one replay to the next)."""
+    res = Result()
+    import jax
+    import jax.numpy as jnp
+
+    from rl_blox.algorithm import dynaq
+
+    rng = np.random.default_rng(case["seed"])
+    for rep in range(8):
+        nS, nA = int(rng.integers(2, 5)), int(rng.integers(2, 4))
+        s, a = int(rng.integers(nS)), int(rng.integers(nA))
+        s2 = s if rng.random() < 0.6 else int(rng.integers(nS))
+        r = float(np.round(rng.uniform(-3, 1), 3))
+        gamma, lr = float(rng.choice([0.5, 0.9, 1.0])), float(rng.choice([0.3, 0.7]))
+        n = int(rng.integers(1, 7))
+        q = rng.normal(size=(nS, nA)).astype(np.float32)
+        q[s, a] = q[s].max() + 0.5  # the replayed action starts out greedy
+        T = np.zeros((nS, nA, nS), np.float32)
+        T[s, a, s2] = 1.0
+        R = np.zeros((nS, nA, nS), np.float32)
+        R[s, a, s2] = r
+        ok, out = guarded(res, "C14/raises/planning", dynaq.planning,
+                          jnp.asarray(T), jnp.asarray(R), jnp.asarray([s]),
+                          jnp.asarray([a]), n, jax.random.key(int(rng.integers(99))),
+                          gamma, lr, jnp.asarray(q))
+        if not ok:
+            return res
+        out = np.asarray(out, np.float64)
+        want = q.astype(np.float64).copy()
+        switched = False
+        g0 = int(np.argmax(want[s2]))
+        for _ in range(n):
+            switched |= int(np.argmax(want[s2])) != g0
+            want[s, a] += lr * (r + gamma * want[s2].max() - want[s, a])
+        mask = np.ones_like(want, bool)
+        mask[s, a] = False
+        if not np.array_equal(out[mask], q.astype(np.float64)[mask]):
+            res.violation("C14/dynaq/planning_other_entry",
+                          "planning changed an entry that was never replayed")
+            return res
+        if abs(out[s, a] - want[s, a]) > 1e-4 * (1 + abs(want[s, a])):
+            res.violation(
+                "C14/dynaq/planning_sequence",
+                f"{n} replays of ({s},{a}) -> {s2} (reward {r}): Q = "
+                f"{out[s, a]!r}, {n} sequential greedy-successor updates give "
+                f"{want[s, a]!r}"
+                + (" (the greedy successor action changes in between)"
+                   if switched else ""))
+            return res
+        res.see("planning_calls_checked")
+        if switched:
+            res.see("planning_calls_with_greedy_switch")
+    res.nontrivial = True
     return res
 
 
